@@ -9,6 +9,7 @@ import (
 	"strings"
 	"unicode"
 	"unicode/utf8"
+	"unsafe"
 
 	"golang.org/x/tools/go/ssa"
 )
@@ -341,6 +342,15 @@ func (x *Exec) intrinsicNamed(fn *ssa.Function, path, name string, args []Value)
 			x.stubsHit[name] = true
 			return zeroResults(fn), true
 		}
+	}
+	if name == "slices.overlaps" {
+		a, b := args[0].(Slice).Data, args[1].(Slice).Data
+		if len(a) == 0 || len(b) == 0 {
+			return Bool{C: false}, true
+		}
+		a0, a1 := uintptr(unsafe.Pointer(&a[0])), uintptr(unsafe.Pointer(&a[len(a)-1]))
+		b0, b1 := uintptr(unsafe.Pointer(&b[0])), uintptr(unsafe.Pointer(&b[len(b)-1]))
+		return Bool{C: a0 <= b1 && b0 <= a1}, true
 	}
 	switch name {
 	case "(*strings.Builder).WriteByte":
